@@ -64,6 +64,9 @@ def in_range(c, lo: int, hi: int):
 class SSeq:
     KIND = "?"
     __slots__ = ("items",)
+    # NORMALIZE: derived values that are fully concrete become real bytes/str (default). Harnesses whose
+    # code under test calls real-str methods with proxy arguments (e.g. path.startswith(prefix)) switch it off.
+    NORMALIZE = True
 
     def __init__(self, items=()):
         its = _items_of(items)
@@ -93,7 +96,7 @@ class SSeq:
 
     def _norm(self, items):
         """A derived value: real bytes/str when fully concrete."""
-        if all(not _isinstance(i, SInt) for i in items):
+        if SSeq.NORMALIZE and all(not _isinstance(i, SInt) for i in items):
             return self._real(items)
         return self._new(items)
 
